@@ -245,7 +245,7 @@ def split_run(igb, solvers, timeout, workers=6, object_bits=12, extra=(), log=No
             return
         s, r, pz = best
         got = dict((x['property'], x) for x in pz['props'])
-        if failfast and pz['status'] == 'failure' and any(str(got.get(p['name'], {}).get('status', '')).upper() in ('FAILURE', 'FAILED') and 'VP_CANARY' not in (p.get('description', '') + got.get(p['name'], {}).get('description', '')) for p in group):
+        if failfast and pz['status'] == 'failure' and any(str(got.get(p['name'], {}).get('status', '')).upper() in ('FAILURE', 'FAILED') and 'VP_CANARY' not in (p.get('description', '') + got.get(p['name'], {}).get('description', '')) and failfast(dict(got.get(p['name'], {}), property=p['name'], sourceLocation=got.get(p['name'], {}).get('sourceLocation') or p.get('sourceLocation', {}), description=got.get(p['name'], {}).get('description') or p.get('description', ''))) for p in group):
             if not stop.is_set():
                 notes.append('quick tier: a failing obligation was found; obligations not yet started were skipped')
             stop.set()
